@@ -10,6 +10,8 @@ import itertools
 BOOL, INT, REAL, STRING, RM, REGLAN = 'Bool', 'Int', 'Real', 'String', 'RM', \
     'RegLan'
 LST = ('DT', 'Lst')
+SHAPE = ('DT', 'Shape')
+TAG = ('DT', 'Tag')
 U = ('U', 'U')
 WIDTHS = (1, 2, 4, 8)
 FPS = (('FP', 5, 11), ('FP', 8, 24))
@@ -36,6 +38,7 @@ def sort_from_tree(t):
     if isinstance(t, str):
         m = {'Bool': BOOL, 'Int': INT, 'Real': REAL, 'String': STRING,
              'RoundingMode': RM, 'RegLan': REGLAN, 'Lst': LST, 'U': U,
+             'Shape': SHAPE, 'Tag': TAG,
              'Float16': ('FP', 5, 11), 'Float32': ('FP', 8, 24),
              'Float64': ('FP', 11, 53), 'Float128': ('FP', 15, 113)}
         return m.get(t)
@@ -89,7 +92,7 @@ def variables():
     """Two declared constants per sort (each symbol bound once)."""
     out = {}
     names = {BOOL: 'p', INT: 'n', REAL: 'r', STRING: 's', RM: 'rm', LST: 'l',
-             U: 'u'}
+             U: 'u', SHAPE: 'sh', TAG: 'tg'}
     for s, base in names.items():
         out[s] = [atom(base + '1', s), atom(base + '2', s)]
     for w in WIDTHS:
@@ -107,6 +110,11 @@ def declarations(fp_short=False):
     decls.append(['declare-sort', 'U', '0'])
     decls.append(['declare-datatype', 'Lst',
                   [['nil'], ['cons', ['hd', 'Int'], ['tl', 'Lst']]]])
+    decls.append(['declare-datatypes', [['Shape', '0'], ['Tag', '0']],
+                  [[['dot'], ['circle', ['rad', 'Int']],
+                    ['square', ['side', 'Int'], ['tag', 'Tag']], ['blob']],
+                   [['ta'], ['tb', ['inner', 'Shape'], ['cnt', 'Int']],
+                    ['tc']]]])
     for s, vs in variables().items():
         for i, v in enumerate(vs):
             if i == 0:
@@ -130,6 +138,8 @@ def constants():
         STRING: [atom('""', STRING), atom('"ab"', STRING)],
         RM: [atom('RNE', RM), atom('roundTowardZero', RM)],
         LST: [atom('nil', LST)],
+        SHAPE: [atom('dot', SHAPE), atom('blob', SHAPE)],
+        TAG: [atom('ta', TAG), atom('tc', TAG)],
     }
     for w in WIDTHS:
         cs = [atom('#b' + format(5 % (1 << w), f'0{w}b'), ('BV', w)),
@@ -168,7 +178,7 @@ def operators():
         add(n, [BOOL, BOOL], BOOL)
         add(n, [BOOL, BOOL, BOOL], BOOL)
     add('not', [BOOL], BOOL)
-    all_sorts = [BOOL, INT, REAL, STRING, RM, LST, U] + \
+    all_sorts = [BOOL, INT, REAL, STRING, RM, LST, U, SHAPE, TAG] + \
         [('BV', w) for w in WIDTHS] + list(FPS) + list(ARRAYS)
     for s in all_sorts:
         add('=', [s, s], BOOL)
@@ -275,6 +285,14 @@ def operators():
     add('hd', [LST], INT)
     add('tl', [LST], LST)
     add(idx('is', 'cons'), [LST], BOOL)
+    add('circle', [INT], SHAPE)
+    add('square', [INT, TAG], SHAPE)
+    add('rad', [SHAPE], INT)
+    add('side', [SHAPE], INT)
+    add('tag', [SHAPE], TAG)
+    add('tb', [SHAPE, INT], TAG)
+    add('inner', [TAG], SHAPE)
+    add('cnt', [TAG], INT)
     # uninterpreted
     add('uf', [U, INT], U)
     add('pf', [INT], BOOL)
@@ -361,6 +379,8 @@ def check(t, env, funs=None):
     if isinstance(t, str):
         if t in env:
             return env[t]
+        if t in funs and not funs[t][0]:
+            return funs[t][1]
         if t in ('true', 'false'):
             return BOOL
         if t.isdigit():
@@ -378,6 +398,10 @@ def check(t, env, funs=None):
             return RM
         if t == 'nil':
             return LST
+        if t in ('dot', 'blob'):
+            return SHAPE
+        if t in ('ta', 'tc'):
+            return TAG
         raise SortError(f'unknown symbol {t}')
     if not t:
         raise SortError('empty application')
@@ -390,13 +414,21 @@ def check(t, env, funs=None):
         return ('FP', int(t[2]), int(t[3]))
     if head == 'let':
         env2 = dict(env)
-        for v, term in t[1]:
-            env2[v] = check(term, env, funs)
+        if isinstance(t[1], str) or len(t) != 3:
+            raise SortError('malformed let')
+        for b in t[1]:
+            if isinstance(b, str) or len(b) != 2 or not isinstance(b[0], str):
+                raise SortError(f'malformed binding {b}')
+            env2[b[0]] = check(b[1], env, funs)
         return check(t[2], env2, funs)
     if head in ('forall', 'exists'):
         env2 = dict(env)
-        for v, s in t[1]:
-            env2[v] = sort_from_tree(s)
+        if isinstance(t[1], str) or len(t) != 3:
+            raise SortError('malformed quantifier')
+        for b in t[1]:
+            if isinstance(b, str) or len(b) != 2 or not isinstance(b[0], str):
+                raise SortError(f'malformed binding {b}')
+            env2[b[0]] = sort_from_tree(b[1])
         if check(t[2], env2, funs) != BOOL:
             raise SortError('quantifier body not Bool')
         return BOOL
